@@ -306,6 +306,7 @@ type State struct {
 	guardSeen map[string]bool
 	ghostParams map[string]*V
 	wcache map[string][]wentry
+	mapAx map[string]bool
 	allocRefs map[string]bool
 	deferStacks [][]*deferRec
 	stack []*ssa.Function
@@ -358,6 +359,10 @@ func (s *State) clone() *State {
 	n.wcache = make(map[string][]wentry, len(s.wcache))
 	for k, v := range s.wcache {
 		n.wcache[k] = v
+	}
+	n.mapAx = make(map[string]bool, len(s.mapAx))
+	for k, v := range s.mapAx {
+		n.mapAx[k] = v
 	}
 	n.allocRefs = make(map[string]bool, len(s.allocRefs))
 	for k, v := range s.allocRefs {
